@@ -21,3 +21,34 @@ Definition carcdr (ds : defs) (uf : term -> term -> subst -> nat) (s : stream) :
 (* append([]*State{car}, ss...): the model's answer lists hold states, not nil pointers; a nil car here is outside it *)
 Definition cons_opt (x : option state) (l : list state) : R (list state) :=
   match x with Some a => Ret (a :: l) | None => Panic end.
+
+(* ---- Mplus / Bind (micro/disj.go, micro/conj.go) ---- *)
+
+(* a goal as Bind uses it: how to run it on a state, and how the model names the suspended Bind over a thunk *)
+Definition sgoal : Type := ((state -> stream) * (thunk -> thunk))%type.
+
+(* s.state of a cell: nil for an immature cell; a nil dereference on nil *)
+Definition cell_state (s : stream) : R (option state) :=
+  match s with
+  | SNil => Panic
+  | SCons a _ => Ret (Some a)
+  | SSusp _ => Ret None
+  | SErr => OOF_
+  end.
+
+(* Suspension(func() { _, cdr := x.CarCdr(); return Mplus(y, cdr) }): x is an immature cell, whose thunk the new thunk wraps.
+   On a mature x the Go closure would drop the head and continue with the tail; the defunctionalised model has no thunk
+   for that, and the code only builds it under `x.state == nil`. *)
+Definition susp_mplus (y x : stream) : R stream :=
+  match x with SSusp th => Ret (SSusp (TMplus y th)) | SErr => OOF_ | _ => Panic end.
+Definition susp_bind (g : sgoal) (x : stream) : R stream :=
+  match x with SSusp th => Ret (SSusp (snd g th)) | SErr => OOF_ | _ => Panic end.
+
+(* NewStream(car, func() { return t }): a mature cell; its lazily computed tail is modelled as the computed tail.
+   NewStream(nil, proc) would be an immature cell: outside the model, and the code passes a non-nil car. *)
+Definition new_stream (car : option state) (t : stream) : R stream :=
+  match car with Some a => Ret (SCons a t) | None => Panic end.
+
+(* g(car) *)
+Definition app_goal (g : sgoal) (car : option state) : R stream :=
+  match car with Some a => Ret (fst g a) | None => Panic end.
